@@ -5,6 +5,8 @@ from .. import gen, core
 ID = "C16"
 STATEFUL = True
 LEAN_TARGETS = ["Cider.Props.C16", "Cider.Props.C02Tie", "Cider.Props.C16Tie"]
+OPTIONAL_TARGETS = ["Cider.Props.C16Src"]
+OPTIONAL_THEOREMS = {"Cider.Props.C16Src": ['Cider.C16Src.letters_eq', 'Cider.C16Src.setSite_eq', 'Cider.C16Src.setPhos_eq', 'Cider.C16Src.appended_ok']}
 P = "Cider.C16."
 THEOREMS = ["Cider.C02.gen_charge_eq_published"] + [P + t for t in (
     "gen_sty_eq_published", "setSite_spec", "setPhos_phos", "phos_history", "phos_seq_frame", "phos_nodup_valid", "phosphoSeq_spec",
